@@ -52,8 +52,13 @@ def FUEL : Nat := 100000
 
 def handle (toks : List String) : String :=
   match toks with
-  | "and" :: self :: args => match parsePred self, args.mapM parsePred with
-      | some s, some a => renderPred (Pred.logicalAnd s a)
+  | "and" :: self :: args =>
+      -- an argument prefixed with `=` *is* (object identity) the accumulated operand tuple at that point
+      let parsed := args.mapM fun a =>
+        if a.startsWith "=" then (parsePred (a.drop 1).toString).map fun o => (true, o)
+        else (parsePred a).map fun o => (false, o)
+      match parsePred self, parsed with
+      | some s, some a => renderPred (Pred.logicalAndId s a)
       | _, _ => "bad-op"
   | "or" :: self :: args => match parsePred self, args.mapM parsePred with
       | some s, some a => renderPred (Pred.logicalOr s a)
@@ -61,6 +66,19 @@ def handle (toks : List String) : String :=
   | ["not", self] => match parsePred self with
       | some s => renderPred (Pred.logicalNot s)
       | none => "bad-op"
+  | ["rewrite", p, spec] =>
+      -- spec: `k=operands|k=operands` (atoms the visitor replaces), `-` for none
+      let pairs : Option (List (Nat × Pred.Operands)) :=
+        if spec == "-" then some [] else
+        (spec.splitOn "|").mapM fun kv => match kv.splitOn "=" with
+          | [k, ops] => match k.toNat?, parsePred ops with
+              | some k, some o => some (k, o)
+              | _, _ => none
+          | _ => none
+      match parsePred p, pairs with
+      | some p, some pairs =>
+        renderPred (Pred.rewrite (fun k => (pairs.find? (·.1 == k)).map (·.2)) p)
+      | _, _ => "bad-op"
   | ["frombool", v] => renderPred (Pred.fromBool (v == "1"))
   | ["eval", p, asg] => match parsePred p with
       | some p => (Pred.eval (assignment asg) p).render
